@@ -504,14 +504,20 @@ theorem aaaGroup_noPanic (name : Str) (l : List Cmd) (hne : l ≠ [])
           (fun x hx => h1 x (List.mem_cons_of_mem _ hx)) (fun x hx => h2 x (List.mem_cons_of_mem _ hx)))
           fun r => noPanic_ok _
 
-/-- `stripMetric` never panics: `tokens[:5]` is guarded by `len(tokens) == 6`. -/
+/-- `stripMetric` never panics: `tokens[2]` and `tokens[:5]` are guarded by `len(tokens) == 6`. -/
 theorem stripMetric_noPanic (parsed : Str) : NoPanic (stripMetric parsed) := by
   unfold stripMetric
   simp only
   split
   · rename_i h
-    rw [if_pos (by omega)]
-    exact noPanic_ok _
+    split
+    · rename_i hn
+      rw [List.getElem?_eq_none_iff] at hn
+      omega
+    · split
+      · rw [if_pos (by omega)]
+        exact noPanic_ok _
+      · exact noPanic_ok _
   · exact noPanic_ok _
 
 /-- `setTransRef`: `strings.Repeat("$REF ", len(nl)-1)` cannot get a negative count when the text
